@@ -16,7 +16,7 @@ From V.gen Require Consts.
 From V.common Require Import Wire Varint Protobuf.
 From V.C18 Require Model.
 From V.C03 Require Model.
-From V.C19 Require Import Model Proofs MsProofs.
+From V.C19 Require Import Formats Model Utf8Proofs Proofs MsProofs.
 Import ListNotations.
 Open Scope N_scope.
 
@@ -322,6 +322,90 @@ Theorem C19_prefix_fields_in_range :
 Proof. exact prefix_from_bytes_fields. Qed.
 Print Assumptions C19_prefix_fields_in_range.
 
+(* ---------------------------------------------------------------- UTF-8, multihash, cid, multiaddr *)
+(* the acceptor used for protobuf `string` fields (the model of core::str::from_utf8) accepts
+   exactly the concatenations of shortest-form encodings of Unicode scalar values: no overlong
+   forms, no surrogates, nothing above U+10FFFF, no stray or missing continuation bytes *)
+Theorem C19_utf8_sound_complete :
+  forall l, utf8_ok l = true <-> (exists cps, Forall scalar cps /\ l = flat_map utf8_encode cps).
+Proof. exact utf8_sound_complete. Qed.
+Print Assumptions C19_utf8_sound_complete.
+
+(* Multihash::<64>::read: a header of 2..20 bytes, then at most 64 digest bytes out of the input *)
+Theorem C19_alloc_multihash :
+  forall b code d rest, mh_read b = Some (code, d, rest) ->
+  exists hdr, b = hdr ++ d ++ rest /\ (2 <= length hdr <= 20)%nat /\ (length d <= 64)%nat.
+Proof. exact mh_read_spec. Qed.
+Print Assumptions C19_alloc_multihash.
+
+(* Cid::read_bytes: the CID (as re-serialised) is no longer than the input and at most 104 bytes *)
+Theorem C19_alloc_cid :
+  forall b c, cid_read b = Some c -> (length c <= length b /\ length c <= 104)%nat.
+Proof. exact cid_read_size. Qed.
+Print Assumptions C19_alloc_cid.
+
+(* Multiaddr::try_from: the component loop never runs out of the fuel S |input| ... *)
+Theorem C19_maddr_total :
+  forall b, maddr_parse b <> OutOfFuel.
+Proof. exact maddr_parse_total. Qed.
+Print Assumptions C19_maddr_total.
+
+Theorem C19_maddr_fuel_irrelevant :
+  forall b fuel, (length b < fuel)%nat -> maddr_parse_f fuel b = maddr_parse_f (S (length b)) b.
+Proof. exact maddr_parse_fuel_irrelevant. Qed.
+Print Assumptions C19_maddr_fuel_irrelevant.
+
+(* ... and every length prefix inside it is bounded by what is left: the components (one unit
+   each plus their data) fit in the input *)
+Theorem C19_alloc_maddr :
+  forall b cs, maddr_parse b = Ok cs -> (comps_size cs <= length b)%nat.
+Proof. exact maddr_parse_size. Qed.
+Print Assumptions C19_alloc_maddr.
+
+(* ---------------------------------------------------------------- WebRTC message framing and webrtc.proto *)
+Theorem C19_webrtc_frame_bounded :
+  forall b body rest, webrtc_extract b = WfFrame body rest ->
+  blen body <= WEBRTC_MAX_FRAME /\ exists pre, b = pre ++ body ++ rest /\ (1 <= length pre <= 10)%nat.
+Proof. exact webrtc_extract_frame. Qed.
+Print Assumptions C19_webrtc_frame_bounded.
+
+Theorem C19_webrtc_oversized_rejected_first :
+  forall pre rest, take_varint 10 (pre ++ rest) = Some (pre, rest) -> minimal pre = true ->
+  WEBRTC_MAX_FRAME < value pre mod 2 ^ 64 -> webrtc_extract (pre ++ rest) = WfErr.
+Proof. exact webrtc_extract_oversized. Qed.
+Print Assumptions C19_webrtc_oversized_rejected_first.
+
+Theorem C19_alloc_webrtc_proto :
+  forall b m, dec_wr b = Some m -> (olen (wr_message m) <= length b)%nat.
+Proof. exact dec_wr_size. Qed.
+Print Assumptions C19_alloc_webrtc_proto.
+
+Theorem C19_roundtrip_webrtc_message :
+  forall payload flag rest,
+  wf_bytes payload -> match flag with Some f => f < 4 | None => True end ->
+  let body := encode_fields (fields_wr (mkWr flag (if is_nil payload then None else Some payload))) in
+  blen body <= WEBRTC_MAX_FRAME ->
+  webrtc_extract (webrtc_encode_message payload flag ++ rest) = WfFrame body rest /\
+  webrtc_message body = Some (if is_nil payload then None else Some payload, flag).
+Proof. exact webrtc_roundtrip. Qed.
+Print Assumptions C19_roundtrip_webrtc_message.
+
+(* ---------------------------------------------------------------- yamux (third party): known finding class 1 *)
+(* intended: the credit of a stream opened by WindowUpdate|SYN is computed for every u32 credit.
+   Refuted on yamux 0.13.10 (`credit + DEFAULT_CREDIT` in u32): with overflow checks compiled in the
+   connection task panics, without them the credit wraps.  Witness corpus/C19/yamux_syn_credit.case *)
+Theorem C19_yamux_syn_credit_refuted :
+  exists credit, credit < 2 ^ 32 /\ u32_add_checked credit YAMUX_DEFAULT_CREDIT = None /\
+    yamux_syn_credit_overflow 2 [0; 1; 0; 1; 0; 0; 0; 1; 255; 255; 255; 255] = true.
+Proof. exact yamux_syn_credit_refuted. Qed.
+Print Assumptions C19_yamux_syn_credit_refuted.
+
+Theorem C19_yamux_syn_credit_partial :
+  forall credit, credit + YAMUX_DEFAULT_CREDIT < 2 ^ 32 ->
+  u32_add_checked credit YAMUX_DEFAULT_CREDIT = Some (credit + YAMUX_DEFAULT_CREDIT).
+Proof. exact yamux_syn_credit_partial. Qed.
+Print Assumptions C19_yamux_syn_credit_partial.
+
 (* ---------------------------------------------------------------- non-vacuity *)
 (* a FIND_NODE response with one peer, decoded with replication factor 20 *)
 Example C19_ex_kad :
@@ -354,4 +438,16 @@ Example C19_ex_webrtc_extreme_length :
   wl_negotiate [[47; 97]] (big ++ [47; 97; 10]) false = V.C03.Model.WLErr 1 /\
   wl_negotiate [[47; 97]] (hdr ++ big ++ [47; 97; 10]) false = V.C03.Model.WLErr 1 /\
   run_regs [47; 97] false [hdr ++ big] = [11].
+Proof. repeat split; vm_compute; reflexivity. Qed.
+
+(* /ip4/10.0.0.1/tcp/80/p2p/<sha256 id>: three components; a /dns with a length beyond the input is refused *)
+Example C19_ex_maddr :
+  maddr_parse ([4; 10; 0; 0; 1; 6; 0; 80; 165; 3; 34; 18; 32] ++ repeat 7 32) =
+    Ok [(4, [10; 0; 0; 1]); (6, [0; 80]); (421, [18; 32] ++ repeat 7 32)] /\
+  maddr_parse [53; 255; 255; 255; 255; 255; 255; 255; 255; 255; 1; 97] = Err.
+Proof. split; vm_compute; reflexivity. Qed.
+
+Example C19_ex_utf8 :
+  utf8_ok [237; 159; 191] = true /\ utf8_ok [237; 160; 128] = false /\   (* U+D7FF yes, surrogate U+D800 no *)
+  utf8_ok [192; 128] = false /\ utf8_ok [244; 143; 191; 191] = true /\ utf8_ok [244; 144; 128; 128] = false.
 Proof. repeat split; vm_compute; reflexivity. Qed.
